@@ -429,7 +429,13 @@ def main(argv=None):
                 known_printed.add(kid)
                 lines.append('KNOWN-FINDING: property=%s %s' % (prop, k['what']))
         # new violations
-        for v in r['violations'][:4]:
+        # counterexamples whose two sides differ visibly first (those of an equality that differ by less than the replay's
+        # tolerance cannot reproduce natively); one per claim name before a second of the same claim
+        vs = sorted(r['violations'], key=lambda v: (0 if v.get('robust') else (1 if v.get('robust') is None else 2)))
+        any_robust = any(v.get('robust') for v in vs)
+        for v in vs[:4]:
+            if any_robust and v.get('robust') is False:
+                continue      # a visible counterexample exists for this obligation: the invisible ones add nothing
             path = write_replay(prop, ob, v)
             if ob.native is None:
                 harness_errors.append('%s: counterexample for claim %s but no native replay defined (%s)' % (ob.name, v['claim'], path))
